@@ -14,6 +14,10 @@ use std::slice;
 pub struct SampledChance {
     index: WeightedAliasIndex<f64>,
     cached: usize,
+    #[cfg(feature = "verif-hooks")]
+    verif: Option<crate::verif::SiteHandle>,
+    #[cfg(feature = "verif-hooks")]
+    verif_probs: Box<[f64]>,
 }
 
 impl SampledChance {
@@ -22,6 +26,10 @@ impl SampledChance {
         SampledChance {
             index: WeightedAliasIndex::new(probs.to_vec()).unwrap(),
             cached: 0,
+            #[cfg(feature = "verif-hooks")]
+            verif: crate::verif::SiteHandle::new(crate::verif::SiteKind::Chance),
+            #[cfg(feature = "verif-hooks")]
+            verif_probs: probs.into(),
         }
     }
 
@@ -30,7 +38,11 @@ impl SampledChance {
     /// This will return the same value on successive calls until reset is called
     pub fn sample(&mut self) -> usize {
         if self.cached == 0 {
+            #[cfg(feature = "verif-hooks")]
+            let thread_rng = || crate::verif::site_rng(&self.verif, thread_rng());
             let res = self.index.sample(&mut thread_rng());
+            #[cfg(feature = "verif-hooks")]
+            let res = crate::verif::draw(&self.verif, &self.verif_probs, res);
             self.cached = res + 1;
             res
         } else {
